@@ -62,6 +62,16 @@ theorem C06_assets_drain_reached (s : Asset.State) (hn : (s.clients.map (·.id))
     Asset.Quiescent (Asset.round (Asset.round (Asset.round s))) :=
   Asset.three_rounds_quiescent s hn
 
+/-- **C06, download classes, one epoch, without assuming the drain**: after the publications of one writer (host or any
+client, any number of overwrites), under any schedule of reactions, receptions, downloads and applications, there is a
+continuation without publications — three fair rounds — after which every peer holds the last publication and nothing is
+pending -/
+theorem C06_asset_epoch_total (x : Option Nat) (s : Asset.State) (e : Asset.Epoch) (hn : (s.clients.map (·.id)).Nodup)
+    (hs : Asset.Settled x s) (hd : e.disciplined) (hp : e.writer = 0 ∨ ∃ c ∈ s.clients, c.id = e.writer) :
+    ∃ more : List Asset.Act, (∀ a ∈ more, Asset.isPublish a = false) ∧
+      Asset.Settled e.last (Asset.run true false (e.run s) more) :=
+  Asset.epoch_total x s e hn hs hd hp
+
 /-- **C06, inline materials, one epoch, without assuming the drain**: after the publications of one writer (host or any
 client, any number of overwrites, any schedule) there is a continuation without publications — three fair rounds — after
 which every peer holds the last publication and nothing is pending -/
